@@ -15,7 +15,7 @@ check("C05", "exploration",
       "differential execution against the host compiler over an enumerated operand matrix, under ASan/UBSan", "DESIGN.md section 5 C05")
 check("C16", "exploration",
       "~35k (quick) / ~10^6 (thorough) literals evaluated on the real engine and compared with oracles that do not share code with the "
-      "parser: python big ints + the [lex.icon] typing table (typeid-exact), glibc strtof/strtod/strtold within 4 ulp, an independent C++ "
+      "parser: python big ints + the [lex.icon] typing table (typeid-exact), glibc strtof/strtod/strtold within 8 ulp ('a few'; distribution reported), an independent C++ "
       "escape decoder (malformed => must be eval_error), ~130 malformed numeric spellings (octal with 8/9, repeated/ill-formed suffixes, exponent marker without digits: must be rejected), and keyword-colliding identifiers found by FNV-1a inversion at check time and "
       "confirmed with the engine's own hash, used as variable/function/parameter/global/attribute names.",
       "Trusted: glibc strto*, python int/bytes semantics, my transcription of [lex.icon]/[lex.ccon]. LP64 only.",
